@@ -3,55 +3,112 @@
 Proof      : coq/Props/C08.v over Model/Commit.v with cas = true and NO hypothesis on the lock
              (lockkind Excl, Lease with arbitrary steal events, or GrantAll): the flip replaces exactly the
              version the committer validated (C08_ack_implies_validated), hence the chain/serializability
-             theorems; a committer whose lease was taken away before the fence gets a conflict, never success.
+             theorems.  Second sentence of the property, over SCHEDULES (Proofs/LostLockProofs.v): a committer whose lease
+             lapses while it is inside commit() before its fence adds nothing to the pointer history for any continuation of
+             the schedule, and the first step that takes it out of the pre-fence states leaves it in PConflict (retryable
+             conflict) or ends the call without a pointer write (C08_lost_lock_before_fence_conflict).  A lapse AFTER the
+             fence can still be acknowledged -- harmless on CAS storage, and said so (C08_lapse_after_fence_example).
              Model/FlipFault.v adds the FAILING pointer write: the conditional PUT raises an error that is not the
              store's refusal, applied by the store or not, anywhere in any interleaving (a request landing after its
-             client gave up = the same event later in the schedule); the committer's reaction is computed from the
-             regenerated tables gen_flip_exn / gen_tx_on (C08_failed_flip_reaction_regenerated); the chain theorems
-             hold for every such schedule (C08_faulted_no_lost_update) and a committer whose pointer write raised is
-             never acknowledged, whatever the pointer says afterwards (C08_failed_write_never_acknowledged).
+             client gave up = the same event later in the schedule: C08_delayed_landing_nonvacuous); the committer's
+             reaction is computed from the regenerated tables gen_flip_exn / gen_tx_on
+             (C08_failed_flip_reaction_regenerated); the chain theorems hold for every such schedule
+             (C08_faulted_no_lost_update) and a committer whose pointer write raised is never acknowledged, whatever the
+             pointer says afterwards (C08_failed_write_never_acknowledged).
+             The store REFUSES a write it has APPLIED (XFlipResent: botocore's default retry policy re-sends a PutObject whose
+             response was lost; the re-sent copy of the conditional request answers 412/409 because the first one landed): what
+             the commit point does about a refusal is regenerated (gen_refused_reads_back, gen_write_landed:
+             C08_refusal_read_back_regenerated -- it reads the pointer back and compares its content with its OWN file name, never a
+             version number); "an attempt is at / past its commit point iff the store applied its write, nobody is told
+             'conflict' about an applied write" is proved for every schedule in which no pointer write lands between the
+             refused-although-applied write and its read-back (C08_acknowledged_iff_applied_partial) and refuted without that
+             hypothesis (C08_acknowledged_iff_applied_refuted: a successor's name tells the read-back nothing).  The
+             failing-write theorems are stated over the same machine (identical to the unrestricted one on schedules without such
+             writes: prompt_irrelevant_without_pending).
+             Model/PtrFallback.v is commit()'s FALLBACK: the pointer object read with the ETag is unusable (absent / garbage /
+             dangling), `current = self.refresh()` re-reads it and recovers by scanning; damage events anywhere.
+             UNCONDITIONALLY every applied pointer write replaced exactly the object whose ETag its committer had read, and the
+             version validated is the one named by those bytes or -- unusable object -- the one recovered by the scan, never
+             that of a pointer repaired in between (C08_fallback_replaced_what_it_read).  "No acknowledged commit is
+             overwritten" on that path is FALSE for arbitrary scan results (C08_fallback_no_lost_update_refuted: witness by
+             computation) and proved under the exact extra hypothesis that every scan returns the version named by the last
+             successful pointer write (C08_fallback_no_lost_update_partial; that hypothesis is C10's subject).
 Tie        : trace validation of the real S3StorageBackend + MetadataManager.commit over an in-memory S3
              with conditional writes (harness/lib/mems3.py), under the scheduler, with a lock that grants
              everyone and with the real lease lock; the projection demands that the validation read IS the read
              that yields the ETag.  Faulted runs (one request-level failure of a committer's pointer PUT: not applied /
-             applied, response lost / in flight and landing at a scheduling point of its own; timeouts, connection
-             errors, 5xx) are projected onto Model/FlipFault.v and must be accepted by xrun_strict, agreeing on final
-             pointer, the store's order of applied writes, outcomes and who failed.
+             applied, response lost / in flight and landing at a scheduling point of its own / applied and the SDK's re-sent
+             copy refused; timeouts, connection errors, 5xx, 412/409) are projected onto Model/FlipFault.v and must be accepted by xrun_strict, agreeing on final
+             pointer, the store's order of applied writes, outcomes and who failed.  Runs that START on an unusable pointer
+             (missing / garbage / dangling / empty) are projected onto Model/PtrFallback.v (base reads by scanning, the
+             unusable ETag read, the fallback refresh -- still unusable or repaired meanwhile --, the conditional write keyed to
+             the unusable object) and must be accepted by rrun_strict, agreeing on final pointer, applied writes, outcomes,
+             per write (object replaced, version validated, where it came from) and the number of inexact scans.
 Oracle     : the serializability oracle of C01 on every explored schedule; on faulted schedules the acknowledged-commits
              oracle, judged from the STORE's own history of the pointer: acknowledged => the store applied that
              committer's write, once, and it replaced the very content the committer validated; retryable conflict =>
-             not applied; final table = serial replay of the applied writes in the store's order.
+             not applied; final table = serial replay of the applied writes in the store's order.  A refused-although-applied
+             write whose version was superseded before the read-back gets its own stable key (ptr-fault:resent-superseded:...:
+             the documented limit of the read-back, reported on every tree).  On unusable-pointer
+             schedules: every applied write replaced exactly the object its committer's ETag read returned, validated the
+             version that object named (or, unusable, the scanned one); acknowledged <=> applied once; no acknowledged
+             append's rows are missing; full serial replay whenever every scan returned the last written version (a scan
+             that returns another committer's UNPUBLISHED file -- possible only without lock exclusion on an unusable
+             pointer -- is counted in the stats and left to C10).
 """
 from __future__ import annotations
 
-from typing import Any, Dict, List, Tuple
+import re
+from typing import Any, Dict, List, Optional, Tuple
 
 from harness.lib import coqbuild, protocol as P, sched as S
 from harness.props import c01
 
 LEVEL = "proof"
-THEOREMS = ["C08_ack_implies_validated", "C08_no_lost_update", "C08_fence", "C08_stolen_never_success",
+THEOREMS = ["C08_ack_implies_validated", "C08_no_lost_update", "C08_lost_lock_before_fence_conflict",
             "C08_cas_path_regenerated", "C08_failed_flip_reaction_regenerated", "C08_faulted_no_lost_update",
-            "C08_failed_write_never_acknowledged"]
+            "C08_failed_write_never_acknowledged", "C08_refusal_read_back_regenerated", "C08_acknowledged_iff_applied_refuted",
+            "C08_acknowledged_iff_applied_partial", "C08_fallback_replaced_what_it_read", "C08_fallback_no_lost_update_refuted",
+            "C08_fallback_no_lost_update_partial", "C08_fallback_path_regenerated"]
 MANIFEST_ENTRY = {
     "level_text": "For CAS storage and ANY lock behaviour (exclusive, lease with arbitrary takeovers, or no exclusion at all) Coq "
                   "proves that every acknowledged flip replaced exactly the version its committer validated, so the committed "
-                  "versions form one chain (no lost update), and that a committer whose lease was taken before the fence ends in "
-                  "a retryable conflict; the same chain theorems are proved for every schedule that also contains FAILING pointer writes "
-                  "(error other than the store's refusal, applied or not, landing anywhere), with the committer's reaction computed "
+                  "versions form one chain (no lost update); over schedules, that a committer whose lease lapses before its fence adds "
+                  "nothing to the pointer history and leaves its attempt in a retryable conflict (or dies) for every continuation; the "
+                  "same chain theorems for every schedule that also contains FAILING pointer writes (error other than the store's "
+                  "refusal, applied or not, landing anywhere, incl. after the client gave up), with the committer's reaction computed "
                   "from the regenerated failure-class / handler tables, and a committer whose pointer write raised is proved never "
-                  "acknowledged; real S3StorageBackend / MetadataManager code is trace-validated against the model over an "
-                  "in-memory conditional-write S3 under a deterministic scheduler with a grant-everyone lock and the real lease lock, "
-                  "including a request-level failure of either committer's pointer PUT (not applied / response lost / in flight and "
-                  "landing later; timeouts, connection errors, 5xx) at every interleaving position with the other committer, judged "
-                  "by an acknowledged-commits oracle over the store's own pointer history",
-    "level_note": "trusted: Coq kernel; translator/gen_commit.py (single ETag-bearing pointer read before validation, failure classes of the conditional write: C08_cas_path_regenerated); harness projection (validation read must be the ETag read); in-memory S3 is strongly "
-                  "consistent with atomic conditional PUT (the property's premise); in-flight PUT delay = interleaving before the "
-                  "atomic landing, and for a client that gave up on the request a landing event of its own (one fault per run); the fault "
-                  "injector at the boto surface (harness/lib/protocol.py s3_fault) and the store's put history (mems3.py); the real S3 "
-                  "lease lock's blocking loop / heartbeat is exercised by C19",
-    "technique": "Coq invariant proof (CAS, arbitrary lock, failing pointer writes) over translator-regenerated kernels + trace validation "
-                 "and request-level fault injection x schedule enumeration over a fake conditional-write S3",
+                  "acknowledged; for a pointer write the store APPLIED and then REFUSED to the committer's face (SDK-level re-send of a "
+                  "request whose response was lost) that the regenerated commit point reads the pointer back against its own file name and "
+                  "that an attempt is past its commit point iff the store applied its write, nobody being told 'conflict' about an applied "
+                  "write -- under the stated hypothesis that no pointer write lands between that write and its read-back, and refuted by a "
+                  "computed witness without it (C08_acknowledged_iff_applied_partial / _refuted); for commit()'s fallback on an UNUSABLE pointer (absent / garbage / dangling, damage anywhere) that every "
+                  "applied pointer write replaced exactly the object whose ETag was read and validated the version that object named "
+                  "or, unusable, the version recovered by the scan -- unconditionally -- and the chain theorems under the stated "
+                  "hypothesis that every scan returns the last successfully written version (without it they are refuted by a "
+                  "computed witness: C08_fallback_no_lost_update_refuted / _partial); real S3StorageBackend / MetadataManager code is "
+                  "trace-validated against the three models over an in-memory conditional-write S3 under a deterministic scheduler with a "
+                  "grant-everyone lock and the real lease lock, including a request-level failure of either committer's pointer PUT at "
+                  "every interleaving position and committers that start on an unusable pointer, judged by implementation-only oracles "
+                  "over the store's own pointer history",
+    "level_note": "trusted: Coq kernel; translator/gen_commit.py (single ETag-bearing pointer read before validation, the validated version "
+                  "derived from that read's bytes -- C08_ack_implies_validated's `a_etag := a_cur := v` in ONE model step rests on this "
+                  "data-flow check --, the only other assignment of `current` being the fallback refresh(); failure classes of the "
+                  "conditional write: C08_cas_path_regenerated, C08_fallback_path_regenerated); harness projection (validation read must "
+                  "be the ETag read; an ETag read that retried a missing object is placed at its last attempt); in-memory S3 is strongly "
+                  "consistent with atomic conditional PUT and ETags unique per object state (the property's premise; for an ABSENT pointer "
+                  "this excludes deleting it twice within one attempt); in-flight PUT delay = interleaving before the atomic landing, and "
+                  "for a client that gave up on the request a landing event of its own (one fault per run); the fault injector at the boto "
+                  "surface (harness/lib/protocol.py s3_fault) and the store's put history (mems3.py); the lost-lock theorem covers a lapse "
+                  "BEFORE the fence -- a lapse between fence and conditional PUT can be acknowledged (harmless on CAS storage, "
+                  "C08_lapse_after_fence_example); the failing-write / applied-then-refused theorems are over the machine in which no pointer "
+                  "write lands while a read-back is pending (= the unrestricted machine where there is no applied-then-refused write); the "
+                  "check reports the excluded schedules under the stable keys ptr-fault:resent-superseded:* (operation committed twice: "
+                  "known limit of the equality read-back); C08_fallback_no_lost_update_partial assumes exact recovery scans (C10); pointer damage in "
+                  "the harness is the initial state only; the real S3 lease lock's blocking loop / heartbeat is exercised by C19",
+    "technique": "Coq invariant proofs (CAS, arbitrary lock, failing pointer writes, unusable pointer + fallback, lost-lock trace lemma) over "
+                 "translator-regenerated kernels + trace validation, request-level fault injection and damaged-pointer initial states x "
+                 "schedule enumeration over a fake conditional-write S3",
     "design_ref": "DESIGN.md section 5 C08",
 }
 
@@ -61,7 +118,9 @@ MANIFEST_ENTRY = {
 # how the conditional PUT of the pointer fails at the S3 request level (harness/lib/protocol.py, case["s3_fault"])
 FAULT_MODES = ["before",       # the request is not applied; the client gets an error that is not the store's refusal
                "after",        # the request is applied; the response is lost
-               "inflight"]     # the client gives up; the request reaches the store LATER (actor "L"), precondition evaluated then
+               "inflight",     # the client gives up; the request reaches the store LATER (actor "L"), precondition evaluated then
+               "resent"]       # the request is applied, the response is lost, the SDK RE-SENDS it (botocore's default retry policy)
+                               # and the second copy is refused (412 / 409): the client sees the store's refusal of an applied write
 FAULT_EXCS = ["timeout", "500", "connclosed", "503", "oserror", "reqtimeout", "connect"]
 XREQ = ["DS.Gen.GenCommit", "DS.Model.Commit", "DS.Model.FlipFault"]
 
@@ -98,7 +157,7 @@ def pointer_history(res: P.CaseResult) -> Tuple[List[Dict[str, Any]], Optional[s
         elif op in ("write_file", "write_file_cas") and P.path_class(e["path"]) == "hint":
             if e.get("s3_fault") == "inflight":
                 sent_read[a] = last_read.get(a)
-            elif e["result"] == "ok" or e.get("s3_fault") == "after":
+            elif e["result"] == "ok" or e.get("s3_fault") in ("after", "resent"):
                 senders.append((a, last_read.get(a)))
         elif op == "Land" and e["result"] == "applied":
             senders.append((str(e.get("for")), sent_read.get(str(e.get("for")))))
@@ -149,6 +208,40 @@ def ack_oracle(case: Dict[str, Any], res: P.CaseResult) -> Optional[str]:
             return (f"{h['owner']}'s pointer write replaced {h['replaced']!r} but {h['owner']} had validated against "
                     f"{h['validated']!r}")
     return c01.serial_oracle(case, res, flips=owners)
+
+
+def misreported_writes(res: P.CaseResult) -> List[str]:
+    """Committers whose pointer write the store APPLIED (fault mode "resent": the re-sent copy of the request was refused) and
+    that took the refusal for a conflict: commit() discarded the metadata file it had written before releasing the lock."""
+    pending: Dict[str, bool] = {}
+    out: List[str] = []
+    for e in res.log:
+        a, op = e["actor"], e["op"]
+        if op in ("write_file", "write_file_cas") and P.path_class(e["path"]) == "hint" and e.get("s3_fault") == "resent":
+            pending[a] = True
+        elif op == "delete_file" and P.path_class(e["path"]) == "meta" and pending.get(a):
+            pending[a] = False
+            out.append(a)
+        elif op == "LockRel":
+            pending[a] = False
+    return out
+
+
+def superseded_before_read_back(res: P.CaseResult) -> bool:
+    """Did another committer's pointer write land between a refused-although-applied write ("resent") and the moment its
+    committer read the pointer back (or, in a source without read-back, released the lock)?"""
+    open_for: Optional[str] = None
+    for e in res.log:
+        a, op = e["actor"], e["op"]
+        is_hint_w = op in ("write_file", "write_file_cas") and P.path_class(e["path"]) == "hint"
+        if is_hint_w and e.get("s3_fault") == "resent":
+            open_for = a
+        elif open_for is not None and a == open_for and (op == "LockRel" or (op == "read_file" and "MetadataManager._hint_write_landed" in e["phase"])):
+            open_for = None
+        elif open_for is not None and a != open_for and ((is_hint_w and (e["result"] == "ok" or e.get("s3_fault") in ("after", "resent")))
+                                                         or (op == "Land" and e["result"] == "applied")):
+            return True
+    return False
 
 
 def _fault_case(ops: Any, lock: str, victim: str, mode: str, exc: str, nth: int = 1, clock: str = "tick", **extra: Any) -> Dict[str, Any]:
@@ -226,11 +319,247 @@ def fault_runs(ctx, quick: bool) -> List[Tuple[Dict[str, Any], Any, P.CaseResult
     return runs
 
 
+# ---------------------------------------------------------------------------------------------------------------------
+# commit()'s fallback: the actors start on an UNUSABLE pointer (Model/PtrFallback.v)
+# ---------------------------------------------------------------------------------------------------------------------
+DAMAGES = ["missing", "garbage", "dangling", "empty"]
+RREQ = ["DS.Model.Commit", "DS.Model.PtrFallback"]
+_META_NAME = re.compile(r"^v(\d+)(?:-[0-9a-f]{8})?\.metadata\.json$")
+
+
+def _ptr_obj(result: Any) -> Optional[bytes]:
+    """What a pointer read returned, as the store's object: its bytes, or None for 'no such object'."""
+    return bytes(result) if isinstance(result, (bytes, bytearray)) else None
+
+
+def fallback_facts(res: P.CaseResult) -> Dict[str, Any]:
+    """Read off the storage log alone, per applied-looking pointer write of a committer: the pointer OBJECT its ETag-bearing
+    read under the lock returned, the metadata file it validated against and where that came from ("direct": named by the
+    bytes read with the ETag; "scan": commit()'s fallback refresh() found the pointer still unusable and scanned;
+    "repaired": the fallback's re-read found a usable pointer).  Also: every recovery by scanning that feeds a commit (base
+    read or fallback) and whether it returned the version named by the last applied pointer write."""
+    cur_name = res.initial["pointer"]
+    att: Dict[str, Dict[str, Any]] = {}
+    scan_pending: Dict[str, bool] = {}
+    reread: Dict[str, Optional[str]] = {}
+    writes: List[Dict[str, Any]] = []
+    inexact: List[Dict[str, Any]] = []
+    for idx, e in enumerate(res.log):
+        a, op, path, phase, result = e["actor"], e["op"], e["path"], e["phase"], e["result"]
+        if not a.startswith("A"):
+            continue
+        pcs = P.path_class(path)
+        in_commit = "MetadataManager.commit" in phase
+        in_refresh = "MetadataManager.refresh" in phase
+        in_tx = "Transaction.commit" in phase or "SnapshotManager.delete_snapshot" in phase
+        if op == "read_file_with_etag" and pcs == "hint" and in_commit:
+            att[a] = {"obj": _ptr_obj(result), "validated": None, "how": None}
+            reread[a] = None
+        elif op == "read_file" and pcs == "hint" and in_commit and in_refresh:
+            try:
+                reread[a] = result.decode("utf-8").strip() if isinstance(result, (bytes, bytearray)) else None
+            except UnicodeDecodeError:
+                reread[a] = None
+        elif op == "list_files" and "MetadataManager._recover_version_from_files" in phase and (in_commit or in_tx) and in_refresh:
+            scan_pending[a] = True
+        elif op == "read_file" and pcs == "meta" and (in_commit or in_tx):
+            base = path.rsplit("/", 1)[-1]
+            if in_refresh and scan_pending.get(a):
+                scan_pending[a] = False
+                if base != cur_name:
+                    inexact.append({"actor": a, "log_index": idx, "recovered": base, "last_written": cur_name})
+                if in_commit and a in att and att[a]["validated"] is None:
+                    att[a].update(validated=base, how="scan")
+            elif in_commit and a in att and att[a]["validated"] is None:
+                att[a].update(validated=base, how=("repaired" if in_refresh else "direct"))
+        elif op in ("write_file", "write_file_cas") and pcs == "hint" and result == "ok":
+            writes.append(dict(att.get(a, {"obj": None, "validated": None, "how": None}), actor=a))
+            cur_name = next((w2["path"].rsplit("/", 1)[-1] for w2 in reversed(res.log[:idx])
+                             if w2["actor"] == a and w2["op"] == "write_file" and P.path_class(w2["path"]) == "meta"), cur_name)
+    return {"writes": writes, "inexact": inexact}
+
+
+def fallback_oracle(case: Dict[str, Any], res: P.CaseResult) -> Optional[str]:
+    """Implementation-only judgement of the property on a run that starts on an unusable pointer, from the store's own
+    history of the pointer and the storage log:
+       * every applied pointer write replaced exactly the pointer OBJECT its committer had read with the ETag under the lock;
+         when that object named a version, that is the version the committer validated against; when it was unusable, the
+         committer validated what its fallback recovered by scanning (never the version of a pointer repaired in between);
+       * acknowledged <=> the store applied that committer's write, once; a retryable conflict => not applied;
+       * no acknowledged commit is lost: the rows of every acknowledged append are in the final table; and, when every
+         recovery scan returned the version named by the last applied pointer write, the final table is the serial replay of
+         the applied writes (the full judgement of the other runs).  A scan that returns another committer's UNPUBLISHED
+         metadata file (possible only while the lock excludes nobody and the pointer is unusable) is C10's subject: counted,
+         not judged here."""
+    if res.deadlock:
+        return f"deadlock: {res.deadlock}"
+    if "error" in res.final:
+        return f"final table unreadable: {res.final['error']}"
+    facts = fallback_facts(res)
+    applied = [h for h in (res.store.history if res.store is not None else []) if h["key"].endswith(P.HINT)]
+    if len(applied) != len(facts["writes"]):
+        return f"the store applied {len(applied)} pointer write(s), the clients' log shows {len(facts['writes'])} successful one(s)"
+    owners: List[str] = []
+    for h, w in zip(applied, facts["writes"]):
+        a = w["actor"]
+        owners.append(a)
+        repl = h["replaced"]
+        if (None if repl is None else bytes(repl)) != w["obj"]:
+            return (f"{a}'s pointer write replaced the object {repl!r} but the ETag {a} held came from a read that returned {w['obj']!r}")
+        try:
+            named = w["obj"].decode("utf-8").strip() if w["obj"] is not None else None
+        except UnicodeDecodeError:
+            named = None
+        if w["how"] == "direct":
+            if named != w["validated"]:
+                return f"{a} was acknowledged on a pointer that named {named!r} having validated against {w['validated']!r}"
+        elif w["how"] == "scan":
+            if named is not None and _META_NAME.match(named) and ("tbl/metadata/" + named) in {k for k in res.store.objects}:
+                return f"{a} validated a scanned version although the pointer it read named the existing file {named!r}"
+        else:
+            return (f"{a}'s pointer write was applied although " + ("the log shows no validation read of a metadata file under the lock"
+                    if w["how"] is None else f"its validated version came from a pointer {w['how']} between the ETag read and refresh()")
+                    + f" (the pointer object it had read with the ETag: {w['obj']!r})")
+    ops = c01._fix_case(case)["ops"]
+    got_rows = sorted(r["x"] for r in res.final["rows"])
+    for a, (st, d) in sorted(res.outcomes.items()):
+        if not a.startswith("A"):
+            continue
+        n = owners.count(a)
+        if st == "ok" and d != "noop" and n != 1:
+            return f"{a}'s commit was acknowledged but the store applied {n} pointer write(s) of {a}"
+        if st != "ok" and "ConcurrentModification" in d and n != 0:
+            return f"{a} reported a retryable conflict although the store applied its pointer write ({n}x)"
+        op = ops[int(a[1:])]
+        if st == "ok" and op["kind"] == "append" and any(r["x"] not in got_rows for r in op["rows"]):
+            return f"{a}'s append was acknowledged but its rows are not in the final table {got_rows} (lost update)"
+    if not facts["inexact"]:
+        return c01.serial_oracle(case, res, flips=owners)
+    return None
+
+
+def fallback_runs(ctx, quick: bool) -> List[Tuple[Dict[str, Any], Any, P.CaseResult]]:
+    """Committers that START on an unusable pointer (absent / garbage / empty / dangling; history and metadata files intact):
+    bounded-preemption enumeration under a lock that excludes nobody, the real lease lock with a lease lapse + takeover at
+    every point of the first committer's commit, and random schedules of three committers."""
+    runs: List[Tuple[Dict[str, Any], Any, P.CaseResult]] = []
+    dmgs = DAMAGES[:3] if quick else DAMAGES
+    for di, dmg in enumerate(dmgs):
+        for oi, ops in enumerate(c01.OPSETS[:3] if quick else c01.OPSETS):
+            case = {"ops": ops, "clock": "tick", "topology": "separate", "backend": "s3cas", "lock": "grant_all", "pointer_damage": dmg}
+            for dev, res in c01.explore(ctx, case, 2, (22 if oi == 0 else 10) if quick else 250):
+                runs.append((case, list(dev), res))
+        ops = c01.OPSETS[di % 2]
+        case = {"ops": ops, "clock": "tick", "topology": "separate", "backend": "s3cas", "lock": "real", "pointer_damage": dmg,
+                "clock_actor": {"jumps": 1, "ms": 61000}}
+        base = P.run_case(ctx.scratch, c01._fix_case(case), c01.dev_chooser({}), tag="c08u")
+        runs.append((case, [], base))
+        n0 = sum(1 for a in base.schedule if a == "A0")
+        for i in range(1, n0 + 1, 2 if quick else 1):
+            dev = [(i, "K"), (i + 1, "K"), (i + 2, "A1")]
+            runs.append((case, dev, P.run_case(ctx.scratch, c01._fix_case(case), c01.dev_chooser({int(k): v for k, v in dev}), tag="c08u")))
+        if not quick:
+            for dev, res in c01.explore(ctx, case, 2, 150):
+                runs.append((case, list(dev), res))
+    for i in range(9 if quick else 240):
+        ops = c01.OPSETS3[i % len(c01.OPSETS3)]
+        case = {"ops": ops, "clock": ctx.rng.choice(["tick", "coarse", "frozen"]), "topology": "separate", "backend": "s3cas",
+                "lock": "grant_all", "pointer_damage": dmgs[i % len(dmgs)], "s3_conflict": ctx.rng.choice(["412", "409", "alt"])}
+        seed = ctx.rng.randrange(1 << 30)
+        runs.append((case, [("random", seed, 0.4)], P.run_case(ctx.scratch, c01._fix_case(case), _chooser_for([("random", seed, 0.4)]), tag="c08ur")))
+    return runs
+
+
+def _rev(ai: int, k: str) -> str:
+    parts = k.split()
+    if parts[0] == "RDamage":
+        return "RDamage"
+    if parts[0] == "RBegin":
+        return f"RBegin {ai}%nat {parts[1]}%nat"
+    if parts[0] == "RReadBad":
+        return f"RReadBad {ai}%nat {parts[1]}%nat"
+    if parts[0] == "RRefresh":
+        rc = f"(RScan {parts[2]}%nat)" if parts[1] == "scan" else f"(RGood {parts[2]}%nat)"
+        return f"RRefresh {ai}%nat {rc} {parts[3]}"
+    if parts[0] == "RFlip":
+        return f"RFlip {ai}%nat {parts[1]}"
+    return f"RE {{| e_actor := {ai}%nat; e_kind := {c01._nat_args(k)} |}}"
+
+
+def rmodel_expr(case: Dict[str, Any], res: P.CaseResult, events: List[Tuple[int, str]]) -> str:
+    n = len(case["ops"])
+    kinds = " ".join(f"| {i}%nat => {c01.kind_of(op)[0]}" for i, op in enumerate(case["ops"]))
+    maxrs = " ".join(f"| {i}%nat => {c01.kind_of(op)[1]}%nat" for i, op in enumerate(case["ops"]))
+    lu0 = res.initial["meta"]["last_updated_ms"]
+    cfgs = "{| cas := true; lockkind := %s |}" % ("GrantAll" if case.get("lock") == "grant_all" else "Lease")
+    evs = "[" + "; ".join(_rev(ai, k) for ai, k in events) + "]"
+    return (f"match rrun_strict {cfgs} false (rinit (init_world {{| m_ops := []; m_cur := 1; m_lu := {lu0} |}} "
+            f"(fun a => match a with {kinds} | _ => KKeep end) (fun a => match a with {maxrs} | _ => 1%nat end))) {evs} 0%nat with "
+            f"| inl X => (1, rsummary X {n}%nat) | inr i => (0, ((i, [], [], []), (0%Z, 0%nat), [], 0%nat)) end")
+
+
+def check_fallback_runs(ctx, name: str, runs: List[Tuple[Dict[str, Any], Any, P.CaseResult]]) -> None:
+    exprs, kept, bad = [], [], []
+    seen_keys = set()
+    n_inexact = n_scan_commits = n_refused = 0
+    for case, dev, res in runs:
+        ctx.count(1, (name, repr(case["ops"]), case.get("lock"), case.get("pointer_damage"), tuple(res.schedule)))
+        why = fallback_oracle(case, res)
+        if why:
+            key = (f"ptr-unusable:{case.get('pointer_damage')}:{case.get('lock')}:"
+                   + "+".join(o["kind"] + ("-" + o["which"] if "which" in o else "") for o in case["ops"]))
+            if key not in seen_keys:
+                seen_keys.add(key)
+                ctx.violation(key, why, {"case": c01._case_json(case), "deviations": list(dev), "schedule": res.schedule, "outcomes": res.outcomes})
+        facts = fallback_facts(res)
+        n_inexact += 1 if facts["inexact"] else 0
+        n_scan_commits += sum(1 for w in facts["writes"] if w["how"] == "scan")
+        n_refused += sum(1 for e in res.log if e["op"] == "write_file_cas" and P.path_class(e["path"]) == "hint" and e["result"] != "ok")
+        try:
+            events, vids, _notes = P.project(res, len(case["ops"]), cas=True, lease=(case.get("lock", "real") == "real"), recover=True)
+        except P.Nonconforming as e:
+            bad.append({"case": c01._case_json(case), "deviations": list(dev), "schedule": res.schedule, "nonconforming": str(e)})
+            continue
+        exprs.append(rmodel_expr(case, res, events))
+        kept.append((case, dev, res, events, vids, facts))
+    vals = coqbuild.coq_eval(RREQ, exprs, chunk=60) if exprs else []
+    for (case, dev, res, events, vids, facts), val in zip(kept, vals):
+        ok, (ptr_or_idx, _ops_final, hist, codes, phys, repl, inexact) = val      # left-nested pairs print flat
+        if ok != 1:
+            i = ptr_or_idx
+            bad.append({"case": c01._case_json(case), "deviations": list(dev), "schedule": res.schedule, "rejected_event_index": i,
+                        "event": events[i] if i < len(events) else None, "events": events[:i + 1][-8:]})
+            continue
+        final_vid = vids.get(res.final.get("pointer"), -1)
+        exp_codes = [1 if res.outcomes[f"A{i}"][0] == "ok" and res.outcomes[f"A{i}"][1] != "noop" else
+                     (2 if "ConcurrentModification" in res.outcomes[f"A{i}"][1] else 0) for i in range(len(case["ops"]))]
+        hows = {"direct": 0, "scan": 1, "repaired": 2}
+        exp_repl = []
+        for w in facts["writes"]:
+            try:
+                named = w["obj"].decode("utf-8").strip() if w["obj"] is not None else None
+            except UnicodeDecodeError:
+                named = None
+            robj = (0, vids[named]) if (w["how"] == "direct" and named in vids) else (1, 0)
+            exp_repl.append((int(w["actor"][1:]), robj, vids.get(w["validated"], -1), hows.get(w["how"], -1)))
+        got_repl = [(a, tuple(p), v, h) for (a, p, v, h) in repl]
+        if (ptr_or_idx != final_vid or tuple(phys) != (0, final_vid) or [a for (_v, a) in hist] != [r[0] for r in exp_repl]
+                or list(codes) != exp_codes or got_repl != exp_repl or inexact != len(facts["inexact"])):
+            bad.append({"case": c01._case_json(case), "deviations": list(dev), "schedule": res.schedule,
+                        "model": {"ptr": ptr_or_idx, "phys": phys, "hist": hist, "codes": codes, "repl": repl, "inexact": inexact},
+                        "impl": {"ptr": final_vid, "repl": exp_repl, "codes": exp_codes, "inexact": facts["inexact"], "outcomes": res.outcomes}})
+    ctx.stats["unusable_pointer_schedules"] = len(runs)
+    ctx.stats["commits_validated_by_scan"] = n_scan_commits
+    ctx.stats["conditional_writes_refused_on_unusable_pointer_runs"] = n_refused
+    ctx.stats["runs_where_a_scan_returned_an_unpublished_version"] = n_inexact
+    ctx.correspondence(name, len(runs), bad)
+
+
 def _xev(ai: int, k: str) -> str:
     if k.startswith("XFlipErr"):
         return f"XFlipErr {ai}%nat {k.split()[1]}"
-    if k == "XUnwind":
-        return f"XUnwind {ai}%nat"
+    if k in ("XUnwind", "XFlipResent", "XReadBack"):
+        return f"{k} {ai}%nat"
     return f"XE {{| e_actor := {ai}%nat; e_kind := {c01._nat_args(k)} |}}"
 
 
@@ -243,7 +572,7 @@ def xmodel_expr(case: Dict[str, Any], res: P.CaseResult, events: List[Tuple[int,
     evs = "[" + "; ".join(_xev(ai, k) for ai, k in events) + "]"
     return (f"match xrun_strict {cfgs} false (xinit (init_world {{| m_ops := []; m_cur := 1; m_lu := {lu0} |}} "
             f"(fun a => match a with {kinds} | _ => KKeep end) (fun a => match a with {maxrs} | _ => 1%nat end))) {evs} 0%nat with "
-            f"| inl X => (1, xsummary X {n}%nat) | inr i => (0, (i, [], [], [], [])) end")
+            f"| inl X => (1, xsummary2 X {n}%nat) | inr i => (0, (i, [], [], [], [], [])) end")
 
 
 def check_fault_runs(ctx, name: str, runs: List[Tuple[Dict[str, Any], Any, P.CaseResult]]) -> None:
@@ -258,7 +587,10 @@ def check_fault_runs(ctx, name: str, runs: List[Tuple[Dict[str, Any], Any, P.Cas
                 fired[e["s3_fault"]] += 1
         why = ack_oracle(case, res)
         if why:
-            key = (f"ptr-fault:{sf['when']}:{case.get('lock')}:"
+            # a refused-although-applied write whose version was SUPERSEDED before the read-back is the documented limit of the
+            # read-back (C08_acknowledged_iff_applied_refuted): its own stable key
+            when = "resent-superseded" if sf["when"] == "resent" and superseded_before_read_back(res) else sf["when"]
+            key = (f"ptr-fault:{when}:{case.get('lock')}:"
                    + "+".join(o["kind"] + ("-" + o["which"] if "which" in o else "") for o in case["ops"]))
             if key not in seen_violation_keys:
                 seen_violation_keys.add(key)
@@ -272,7 +604,7 @@ def check_fault_runs(ctx, name: str, runs: List[Tuple[Dict[str, Any], Any, P.Cas
         kept.append((case, dev, res, events, vids))
     vals = coqbuild.coq_eval(XREQ, exprs, chunk=60) if exprs else []
     for (case, dev, res, events, vids), val in zip(kept, vals):
-        ok, (ptr_or_idx, _ops_final, hist, codes, failed) = val
+        ok, (ptr_or_idx, _ops_final, hist, codes, failed, misrep) = val
         if ok != 1:
             i = ptr_or_idx
             bad.append({"case": c01._case_json(case), "deviations": list(dev), "schedule": res.schedule, "rejected_event_index": i,
@@ -295,10 +627,13 @@ def check_fault_runs(ctx, name: str, runs: List[Tuple[Dict[str, Any], Any, P.Cas
         for e in res.log:
             if e.get("s3_fault") in ("before", "after") or (e["op"] == "Land"):
                 exp_failed.append(int((e["actor"] if e["op"] != "Land" else str(e.get("for")))[1:]))
-        if ptr_or_idx != final_vid or [a for (_v, a) in hist] != owners or list(codes) != exp_codes or list(failed) != exp_failed:
+        exp_mis = [int(a[1:]) for a in misreported_writes(res)]
+        if (ptr_or_idx != final_vid or [a for (_v, a) in hist] != owners or list(codes) != exp_codes or list(failed) != exp_failed
+                or list(misrep) != exp_mis):
             bad.append({"case": c01._case_json(case), "deviations": list(dev), "schedule": res.schedule,
-                        "model": {"ptr": ptr_or_idx, "hist": hist, "codes": codes, "failed": failed},
-                        "impl": {"ptr": final_vid, "applied": owners, "codes": exp_codes, "failed": exp_failed, "outcomes": res.outcomes}})
+                        "model": {"ptr": ptr_or_idx, "hist": hist, "codes": codes, "failed": failed, "misreported": misrep},
+                        "impl": {"ptr": final_vid, "applied": owners, "codes": exp_codes, "failed": exp_failed, "misreported": exp_mis,
+                                 "outcomes": res.outcomes}})
     ctx.stats["pointer_write_faults_fired"] = fired
     ctx.stats["faulted_schedules"] = len(runs)
     ctx.correspondence(name, len(runs), bad)
@@ -309,10 +644,13 @@ def run(ctx) -> None:
                 "conditional-write S3, (a) with a lock granting everyone, (b) with the real S3LockProvider (one attempt per "
                 "scheduler step) and a clock actor jumping past the 60 s lease at every point of a commit (lease lapse, takeover, "
                 "stale holder resuming); bounded-preemption enumeration + directed + random; (c) one request-level failure of a "
-                "committer's pointer PUT {not applied, applied with the response lost, in flight and landing later} x {read timeout, "
+                "committer's pointer PUT {not applied, applied with the response lost, in flight and landing later, applied and the SDK's "
+                "re-sent copy refused (412/409)} x {read timeout, "
                 "connection closed / refused / reset, 500, 503, 400 RequestTimeout} x {first, second attempt} x either committer, with "
                 "the other committer's whole commit (and the landing) at every position, under (a) and (b), + enumeration + random "
-                "3-4 committers; distinct = executed schedule per case")
+                "3-4 committers; (d) committers that START on an unusable pointer {missing, garbage, dangling, (thorough) empty}: "
+                "enumeration under (a), lease lapse + takeover at every point under (b), random 3-4 committers; "
+                "distinct = executed schedule per case")
     ctx.trusted_base += ["harness/lib/sched.py, protocol.py, mems3.py (strongly consistent in-memory S3 with If-Match / If-None-Match)"]
     ctx.assumptions += ["conditional PUT is atomic and the store is strongly consistent (property premise)"]
     ctx.proofs(THEOREMS, gen_files=["GenCommit.v"])
@@ -354,11 +692,13 @@ def run(ctx) -> None:
         runs.append((case, [("random", seed, 0.4)], res))
     # the pointer write itself fails (request level), at every interleaving position with the other committer
     fruns = fault_runs(ctx, quick)
+    # commit()'s fallback: the committers start on an unusable pointer
+    uruns = fallback_runs(ctx, quick)
     # implementation-level statement of "a committer that lost its lock before the commit point reports a retryable
     # conflict, never success": with the real lease lock, once another committer has taken the lock over, the fence of the
     # previous holder (its is_held() just before the pointer write) must answer False -- judged on the storage log alone
     stolen_fences = 0
-    for case, dev, res in runs + fruns:
+    for case, dev, res in runs + fruns + uruns:
         if case.get("lock") != "real":
             continue
         holder = None
@@ -385,6 +725,10 @@ def run(ctx) -> None:
     if runs:
         c, d, r = runs[len(runs) // 3]
         ctx.sample({"case": c01._case_json(c), "schedule": r.schedule, "outcomes": r.outcomes})
+    try:
+        check_fallback_runs(ctx, "s3cas-unusable-pointer-trace", uruns)
+    except RuntimeError as e:
+        ctx.proof_problems.append("model evaluation failed (unusable pointer): " + str(e)[:800])
     try:
         check_fault_runs(ctx, "s3cas-ptr-fault-trace", fruns)
     except RuntimeError as e:
@@ -423,6 +767,7 @@ def replay(ctx, payload) -> int:
         bad = _fence_after_takeover(res)
         print("replay:", f"STILL FAILS: fence answered True after a takeover for {bad}" if bad else "passes now")
         return 1 if bad else 0
-    why = ack_oracle(c["case"], res) if key.startswith("ptr-fault") else c01.serial_oracle(c["case"], res)
+    why = (ack_oracle(c["case"], res) if key.startswith("ptr-fault") else
+           fallback_oracle(c["case"], res) if key.startswith("ptr-unusable") else c01.serial_oracle(c["case"], res))
     print("replay:", "STILL FAILS: " + why if why else "passes now")
     return 1 if why else 0
